@@ -392,8 +392,8 @@ Qed.
 (* 2. the serialiser of part conditions = the serialiser of rule conditions on literal arguments *)
 
 Lemma leaf_to_json_lit (l : leaf pyval) :
-  leaf_to_json T arg1 (arg1_to_json T X) arg1_raw (leaf_map pyval arg1 ALit l)
-  = leaf_to_json T pyval (arg0_to_json X) (fun v => Ok v) l.
+  leaf_to_json T X arg1 (arg1_to_json T X) arg1_raw (leaf_map pyval arg1 ALit l)
+  = leaf_to_json T X pyval (arg0_to_json X) (fun v => Ok v) l.
 Proof.
   destruct l as [cls kind pre call args kws].
   unfold leaf_to_json, leaf_map, is_null_leaf. cbn [l_cls l_call l_args l_kwargs].
@@ -423,12 +423,25 @@ Proof.
         | (k', a) :: r => let* x := Ok a in let* r' := go r in Ok ((VStr k', x) :: r') end) kws).
   { induction kws0 as [|[k' a] r IH]; [reflexivity|].
     change (kmapL ((k', a) :: r)) with ((k', ALit a) :: kmapL r). lazy beta iota. rewrite IH. reflexivity. }
+  assert (Hitem : forall kws : list (string * pyval),
+     (fix go (kws : list (string * arg1)) : res (list (pyval * pyval)) := match kws with
+        | [] => Ok []
+        | (k', a) :: r =>
+            let* x := match arg1_raw a with Ok v => item_to_json X cast v | Err _ => arg1_to_json T X cast a end in
+            let* r' := go r in Ok ((VStr k', x) :: r') end) (kmapL kws)
+     = (fix go (kws : list (string * pyval)) : res (list (pyval * pyval)) := match kws with
+        | [] => Ok []
+        | (k', a) :: r =>
+            let* x := match (fun v : pyval => Ok v) a with Ok v => item_to_json X cast v | Err _ => arg0_to_json X cast a end in
+            let* r' := go r in Ok ((VStr k', x) :: r') end) kws).
+  { induction kws0 as [|[k' a] r IH]; [reflexivity|].
+    change (kmapL ((k', a) :: r)) with ((k', ALit a) :: kmapL r). lazy beta iota. rewrite IH. reflexivity. }
   assert (Hex : existsb (fun ka : string * arg1 => str_contains "path" (fst ka)) (kmapL kws)
               = existsb (fun ka : string * pyval => str_contains "path" (fst ka)) kws).
   { clear. induction kws as [|[k' a] r IH]; [reflexivity|]. change (kmapL ((k', a) :: r)) with ((k', ALit a) :: kmapL r). cbn [existsb fst]. rewrite IH. reflexivity. }
   assert (HmapM : mapM (arg1_to_json T X cast) (map ALit args) = mapM (arg0_to_json X cast) args).
   { clear. induction args as [|a r IH]; [reflexivity|]. cbn [map mapM]. rewrite IH. reflexivity. }
-  rewrite Hhd, Hloop, Hraw, Hex, HmapM. reflexivity.
+  rewrite Hhd, Hloop, Hraw, Hitem, Hex, HmapM. reflexivity.
 Qed.
 
 Lemma cond_to_json_lit (c : cond pyval) : cond1_to_json T X (cmapL c) = cond0_to_json T X c.
